@@ -338,8 +338,12 @@ func (t *Tx) Rollback(ctx context.Context) error {
 	if t.rows != nil {
 		t.rows.closed = true
 	}
-	t.c.prim("rollback", t.id)
+	fail := t.c.prim("rollback", t.id)
+	// pgx: a transaction is closed after any Rollback attempt, and its writes are gone either way
 	t.closed = true
+	if fail {
+		return ErrInjected
+	}
 	return nil
 }
 
